@@ -130,7 +130,7 @@ check(
     "C14",
     "trace monitor on the component-pick probability vectors seen at the Generator interface + measured mass shares with a variance-derived tolerance band (bounded restatement of convergence)",
     "For multi-component systems with light and heavy molecules the constant pick vector p* and the measured mean molecule masses give the asymptotic mass "
-    "share implied by the selection law, compared with the fractions that were WRITTEN (every number spelling); measured shares are compared within max(6.5 sigma, 3 m_max/M) and re-confirmed; systems of equal-mass isomers (incl. 0 % components) decide the clause without reference to the known finding, through the iterator and through System.generate, with ensembles of up to 60000 (quick) / 150000 (thorough) molecules so that a composition frozen after an internal batch of picks is outside the band.",
+    "share implied by the selection law, compared with the fractions that were WRITTEN (every number spelling); measured shares are compared within max(6.5 sigma, 3 m_max/M) and re-confirmed; systems of equal-mass isomers (incl. 0 % components) decide the clause without reference to the known finding, through the iterator and through System.generate, with ensembles of up to 60000 (quick) / 120000 (thorough) molecules so that a composition frozen after an internal batch of picks is outside the band.",
     "The limit statement is restated as a finite-mass band. On the pinned tree the per-molecule pick law is a recorded known finding; any other deviation is reported.",
     "DESIGN.md section 3, C14",
 )
